@@ -132,6 +132,16 @@ func genCall(t *rapid.T, allowed []int) call {
 
 // run executes one call; a panic of the library is part of the result (C01 decides whether it may happen, C20 only that
 // it does not depend on the company the call runs in)
+// runRecycled is run with the entry's copies taken from one recycled buffer (see cp); sequential use only
+func runRecycled(c call) string {
+	if arena.buf == nil {
+		arena.buf = make([]byte, 1<<20)
+	}
+	arena.on, arena.off = true, 0
+	defer func() { arena.on = false }()
+	return run(c)
+}
+
 func run(c call) (res string) {
 	defer func() {
 		if r := recover(); r != nil {
@@ -304,8 +314,15 @@ func TestProp_OrderIndependence(t *testing.T) {
 				}
 			}
 		}
+		recycle := rapid.Bool().Draw(t, "recycledBuffer")
 		for _, i := range order {
-			if r := run(calls[i]); r != first[i] {
+			r := ""
+			if recycle {
+				r = runRecycled(calls[i])
+			} else {
+				r = run(calls[i])
+			}
+			if r != first[i] {
 				t.Fatalf("call %d: %s\nin the first order:   %s\nin the permuted order: %s\norder %v", i, calls[i], first[i], r, order)
 			}
 		}
@@ -504,7 +521,7 @@ func TestProp_HistoryProbe(t *testing.T) {
 			baseMu.Lock()
 			want := baseline[keys[i]]
 			baseMu.Unlock()
-			if got := run(c); got != want {
+			if got := runRecycled(c); got != want {
 				t.Fatalf("probe %s\nfirst result in this process: %s\nafter the calls %s: %s", c, want, key.String(), got)
 			}
 		}
